@@ -218,6 +218,7 @@ def _ours_loop_form(ctx, facts, body, it, r, sub, name, props):
 
 
 @rule('MERGE-DROP', {
+    'C07': 'the witness clock kept / adopted for a one-sided entry is what reads return as its remove context',
     'C09': 'an entry the other side has seen and removed must be dropped, a stale entry must not be re-adopted (no resurrection)',
     'C04': 'an unseen add must survive the merge (add wins); a seen-and-removed one must not',
     'C05': 'same for Map keys',
@@ -232,7 +233,7 @@ def merge_drop(ctx):
     for inst, adt, _, _ in TYPES:
         r = roles(facts, adt)
         sub = () if inst == 'orswot' else ('clock',)
-        props = ['C09', 'C03', 'C02', 'C20'] + (['C04'] if inst == 'orswot' else ['C05'])
+        props = ['C09', 'C03', 'C02', 'C20', 'C07'] + (['C04'] if inst == 'orswot' else ['C05'])
         body = ctx.method(adt, 'CvRDT', 'merge')
         it = interp(facts, body)
         # ---------------- ours-only
@@ -443,6 +444,7 @@ def merge_drop(ctx):
 # ---------------------------------------------------------------- both-present branch
 
 @rule('MERGE-COMMON', {
+    'C07': 'the remove context a read hands out for a member / key IS the witness clock merge stores here: a wrongly recomputed witness is a context that is not the element\'s surviving adds',
     'C04': 'each component of the common-dots formula has a two-replica history: without "ours not covered by theirs" a concurrent add is lost',
     'C05': 'same for Map entry clocks',
     'C09': 'with the wrong clock an observed-removed add survives the merge',
@@ -457,7 +459,7 @@ def merge_common(ctx):
     for inst, adt, _, _ in TYPES:
         r = roles(facts, adt)
         sub = () if inst == 'orswot' else ('clock',)
-        props = ['C09', 'C03', 'C02', 'C20'] + (['C04'] if inst == 'orswot' else ['C05'])
+        props = ['C09', 'C03', 'C02', 'C20', 'C07'] + (['C04'] if inst == 'orswot' else ['C05'])
         body = ctx.method(adt, 'CvRDT', 'merge')
         it = interp(facts, body)
         cands = []
